@@ -75,6 +75,14 @@ pub async fn af_yield(x: u32) -> u32 {
     BODY[8].fetch_add(1, Ordering::SeqCst);
     x.wrapping_add(88)
 }
+/// two async functions that are never faked: a background executor thread awaits them for the whole run
+pub async fn af_bg1(x: u32) -> u32 {
+    x.wrapping_mul(3)
+}
+pub async fn af_bg2(s: &str) -> usize {
+    YieldOnce(false).await;
+    s.len() + 1
+}
 pub struct Svc {
     pub base: u32,
 }
@@ -382,6 +390,26 @@ pub fn run(ctx: &Ctx) {
     let mut panic_exits = 0u64;
     let mut seen: Vec<std::collections::HashSet<u64>> = (0..NF).map(|_| std::collections::HashSet::new()).collect();
     let mut last_fresh = [0u64; NF];
+    // an executor thread that keeps awaiting two never-faked async functions while fakes are installed
+    // and removed on this thread: "all other async functions behave as before ... on any executor thread"
+    let stop = Arc::new(std::sync::atomic::AtomicBool::new(false));
+    let bg_awaits = Arc::new(AtomicU64::new(0));
+    let bg_bad = Arc::new(AtomicU64::new(0));
+    let bg = {
+        let (stop, n, bad) = (stop.clone(), bg_awaits.clone(), bg_bad.clone());
+        std::thread::spawn(move || {
+            let mut k: u32 = 0;
+            while !stop.load(Ordering::Relaxed) {
+                k = k.wrapping_add(1);
+                let (a, pa, _) = run_counting(af_bg1(k));
+                let (b, pb, _) = run_counting(af_bg2("abc"));
+                if a != k.wrapping_mul(3) || pa != 1 || b != 4 || pb != 2 {
+                    bad.fetch_add(1, Ordering::SeqCst);
+                }
+                n.fetch_add(2, Ordering::Relaxed);
+            }
+        })
+    };
     for idx in 0..ncases {
         if !ctx.mine(idx) {
             continue;
@@ -452,8 +480,15 @@ pub fn run(ctx: &Ctx) {
             for o in ops {
                 match o {
                     Op::Fake(i, v) => {
+                        let (f0, u0) = (FRESH.load(Ordering::SeqCst), FRESH_UNIT.load(Ordering::SeqCst));
                         model[*i] = ip::lib(|| fake_fn(&mut inj, *i, *v));
                         fakes += 1;
+                        if FRESH.load(Ordering::SeqCst) != f0 || FRESH_UNIT.load(Ordering::SeqCst) != u0 {
+                            // the value expression ran although nothing was awaited: what the first await gets
+                            // is then not a fresh evaluation
+                            err = Some(format!("faked fn {}: the value expression was evaluated at install time — not a fresh evaluation per await", i));
+                            break 'outer;
+                        }
                     }
                     Op::Await(i, a, m) => {
                         awaits += 1;
@@ -545,7 +580,7 @@ pub fn run(ctx: &Ctx) {
                     "faked-await-not-ready-on-first-poll"
                 } else if e.contains("ran the original body") {
                     "faked-await-ran-original-body"
-                } else if e.contains("not a fresh evaluation") || e.contains("went backwards") || e.contains("evaluated != 1") {
+                } else if e.contains("evaluated at install time") || e.contains("not a fresh evaluation") || e.contains("went backwards") || e.contains("evaluated != 1") {
                     "value-not-freshly-evaluated"
                 } else if e.contains("un-faked") || e.contains("sibling") {
                     "other-async-function-affected"
@@ -562,5 +597,10 @@ pub fn run(ctx: &Ctx) {
             }
         }
     }
-    out::summary(&J::new().n("awaits_checked", awaits).n("fakes_installed", fakes).n("awaits_on_executor_threads", thread_awaits).n("lifetimes_ended_by_unwinding", panic_exits).n("async_functions", NF));
+    stop.store(true, Ordering::SeqCst);
+    let _ = bg.join();
+    if bg_bad.load(Ordering::SeqCst) > 0 {
+        out::outcome(2_000_000_000 + ctx.shard, "background-executor-thread", Verdict::Violated, "other-async-function-affected-on-another-executor-thread", &J::new().n("bad_awaits", bg_bad.load(Ordering::SeqCst)));
+    }
+    out::summary(&J::new().n("awaits_by_the_background_executor_thread", bg_awaits.load(Ordering::SeqCst)).n("awaits_checked", awaits).n("fakes_installed", fakes).n("awaits_on_executor_threads", thread_awaits).n("lifetimes_ended_by_unwinding", panic_exits).n("async_functions", NF));
 }
